@@ -236,10 +236,16 @@ TEXT['C08'] = dict(
               'checking against an independent spline library and dense linear algebra')
 TEXT['C09'] = dict(
     category='other',
-    text='Bounded stand-in only so far: stored basis integrals, quadrature weights and w.u against exact antiderivatives over the '
-         'same sweep of spaces, including repeated and shared use of one basis object.',
-    note=BOUNDED_NOTE + 'Found and fixed two genuine defects of BSplines._build_integrals (fix: fbde878, fb94ce5).',
-    technique='bounded run-time checking against exact spline antiderivatives')
+    text='Deductive part (bookkeeping clauses, periodic case): SplineInterpolator1D.get_quadrature_coefficients hands the transposed '
+         'solve exactly the vector "basis integrals with the periodic wrap folded into the first degree entries" and leaves the '
+         'stored integrals of the (possibly shared) basis object untouched, so a second call gives the same weights. The values of '
+         'the integrals, sum = b - a, the non-periodic branch and weights . data = integral of the interpolant are covered by the '
+         'bounded part: stored basis integrals, quadrature weights and w.u against exact antiderivatives over a sweep of spaces, '
+         'including repeated and shared use of one basis object.',
+    note=PROOF_NOTE + BOUNDED_NOTE + 'Assumed: SuperLU transposed solve (uninterpreted function of its right-hand side). Found and '
+         'fixed two genuine defects of BSplines._build_integrals (fix: fbde878, fb94ce5).',
+    technique='sidecar contract with an array-valued uninterpreted solve (extensionality instantiated per pair of occurrences); '
+              'bounded run-time checking against exact spline antiderivatives')
 
 TEXT['C13'] = dict(
     category='proof',
